@@ -62,7 +62,8 @@ def run(ctx):
             h = 1e-3
             fine = (doc_storage(p + h, so, sw, phi, pvt) - doc_storage(p - h, so, sw, phi, pvt)) / (2 * h)
             ev += 1
-            if not np.allclose(cp, fine, rtol=2e-2, atol=1e-9 * scale):
+            away = np.min(np.abs(p[:, None] - P[None, :]), axis=1) > 1.0  # the one-psi window must not straddle a table kink
+            if not np.allclose(cp[away], fine[away], rtol=2e-2, atol=1e-9 * scale):
                 bad("multiphase compressibility does not match an independent fine finite difference of the documented storage", inp,
                     dict(got=[float(x) for x in cp[:3]], fine=[float(x) for x in fine[:3]]))
         par = dict(n_o=2.0, n_w=2.0, n_g=2.0, S_or=0.1, S_wc=max(sw, 0.05), S_gc=0.05, k_ro_max=0.9, k_rw_max=0.5, k_rg_max=0.8)
